@@ -15,10 +15,14 @@ place_demo() {
   done
   for d in "$S"/demo/*.diff; do [ -f "$d" ] && git apply "$d" && echo "applied $d"; done
 }
-demo_filter() { ls "$S"/demo/*.rs | head -1 | xargs basename | sed 's/\.rs$//'; }
+demo_filter() {
+  f=$(ls "$S"/demo/*.rs | head -1); n=$(basename $f .rs)
+  dest=$(grep -m1 -oE "crates/[A-Za-z0-9_/-]+\.rs" "$f" | head -1)
+  case "$dest" in */src/*) echo "$n";; *) echo "--test $n";; esac
+}
 echo "### with patch: existing tests of $CRATE"
 git apply "$S/patch.diff" || { echo "PATCH DOES NOT APPLY"; exit 2; }
-cargo test --offline --no-fail-fast -p $CRATE $FE 2>&1 | grep -E "^test result|FAILED|^error" | sort | uniq -c | sort -rn | head -12
+cargo test --offline --no-fail-fast -p $CRATE $FE 2>&1 | grep -E "^test result|FAILED|^error" | grep -v "^test result: ok" | head -12; echo "(only non-ok lines shown; expected: the known always-failing inverse_intent test)"
 echo "### with patch: demo"
 place_demo
 cargo test --offline --no-fail-fast -p $CRATE $FE $(demo_filter) 2>&1 | grep -E "^test .*(ok|FAILED)$|^test result: (FAILED|ok). [1-9]|^error" | head -12
